@@ -1,4 +1,5 @@
 """C01 — the trajectory is the solution of the point-mass equations of motion."""
+import copy
 import math
 
 from vlib.common import Failure, import_repo
@@ -131,6 +132,19 @@ def search(chk, broken):
         R = rng.choice([600.0, 1200.0])
         step = R / 6
         calcs = [pbc.Calculator(_config={'max_calc_step_size_feet': h}) for h in (h0, h0 / 2, h0 / 4)]
+        if rng.random() < 0.6:
+            # long-used calculators: they have just served a SIBLING projectile — same BC, same Mach grid of the drag table, other drag
+            # coefficients (a re-fitted custom table, a form-factor-scaled table); the next shot flies on its own drag curve
+            sib = copy.copy(shot)
+            f = rng.choice([0.6, 0.8, 1.3])
+            sib.ammo = copy.copy(shot.ammo)
+            sib.ammo.dm = pbc.DragModel(shot.ammo.dm.BC, [{'Mach': p.Mach, 'CD': p.CD * f} for p in shot.ammo.dm.drag_table],
+                                        shot.ammo.dm.weight, shot.ammo.dm.diameter, shot.ammo.dm.length)
+            for c in calcs:
+                try:
+                    c.fire(sib, U.Foot(300.0), U.Foot(100.0))
+                except Exception:  # noqa
+                    pass
         try:
             runs = [c.fire(shot, U.Foot(R), U.Foot(step)).trajectory for c in calcs]
         except pbc.RangeError:
@@ -138,7 +152,7 @@ def search(chk, broken):
         if not (len(runs[0]) == len(runs[1]) == len(runs[2])):
             continue
         xs = [r.distance >> U.Foot for r in runs[0]]
-        ref = rk4_reference(pbc, calcs[0], shot, xs, h0 / 32)
+        ref = rk4_reference(pbc, pbc.Calculator(_config={'max_calc_step_size_feet': h0}), shot, xs, h0 / 32)   # coefficient functions from a calculator of its own
         evals += 1
         desc = {'op': 'ode', 'range_ft': R, 'mv_fps': shot.ammo.mv >> U.FPS, 'bc': shot.ammo.dm.BC, 'look_deg': shot.look_angle >> U.Degree,
                 'cant_deg': shot.cant_angle >> U.Degree, 'alt_ft': shot.atmo.altitude >> U.Foot, 'winds': [(w.velocity >> U.FPS, w.direction_from >> U.Degree, w.until_distance >> U.Foot) for w in shot.winds]}
